@@ -5,6 +5,7 @@ import (
 	"fmt"
 	"os"
 	"path/filepath"
+	"strings"
 	"sync"
 	"time"
 
@@ -12,19 +13,21 @@ import (
 	"github.com/ipld/go-storethehash/store/types"
 
 	"verif/harness/internal/core"
+	"verif/harness/internal/crash"
 	"verif/harness/internal/gen"
 	"verif/harness/internal/hookrt"
 	"verif/harness/internal/run"
+	"verif/harness/internal/seq"
 )
 
 func init() {
 	run.Register(&run.Check{
 		ID:    "C13",
 		Level: "exploration",
-		Cases: func(tier string) int { return tierN(tier, 3000, 60000) + tierN(tier, 60, 1200) },
+		Cases: func(tier string) int { return tierN(tier, 3000, 60000) + tierN(tier, 160, 3000) },
 		Run:   runC13,
 		Rule: "sequential slice: case = (multihash configuration with small files, key universe, history with a Flush after every mutating call, primary/index GC cycles, restarts); at every quiescent point the on-disk layout is decoded by fsck and the multiset of locations that stopped being current since the previous point (overwritten, removed, relocated) must equal the multiset of entries appended to the freelist file (plus batches captured at the hand-over hook); batches consumed by GC must be dead afterwards and no location is marked twice or while current; " +
-			"non-trivial iff >=3 comparison points and >=2 freelist entries were observed; distinct = hash of (configuration, digests, operations). Concurrent family (last 60/1200 cases, freelist package boundary): 2-6 producers Put 500-2500 unique blocks each while one goroutine loops Flush and one loops ToGC + read + delete of the hand-over file, with delays injected at the hooks between rename and reopen and around the pool swap; after Close the multiset handed over plus the multiset left in the file must equal the multiset produced (no loss, no duplicate, no split entry)",
+			"non-trivial iff >=3 comparison points and >=2 freelist entries were observed; distinct = hash of (configuration, digests, operations). Concurrent family (last 60/1200 cases, freelist package boundary): 2-6 producers Put 500-2500 unique blocks each while one goroutine loops Flush and one loops ToGC + read + delete of the hand-over file, with delays injected at the hooks between rename and reopen and around the pool swap; after Close the multiset handed over plus the multiset left in the file must equal the multiset produced (no loss, no duplicate, no split entry). Crash family (every second of those trailing cases): a history with GC cycles on unflushed state is imaged at every hook point and after every call; on each image fsck resolves the locations a restarted store would treat as current (log replay) and none of them may be on the freelist, in the hand-over file or marked deleted",
 		Assumptions: []string{
 			"a flush after every mutating call makes each interval's superseded set exact; GC runs only on flushed state here (GC on unflushed state is explored by C04)",
 			"locations are never reused (file numbers only grow in the explored range)",
@@ -36,9 +39,74 @@ func c13SeqCount(tier string) int { return tierN(tier, 3000, 60000) }
 
 func runC13(c run.Ctx) *core.CaseResult {
 	if c.Index >= c13SeqCount(c.Tier) {
+		if (c.Index-c13SeqCount(c.Tier))%2 == 1 {
+			return runC13Crash(c)
+		}
 		return runC13FreelistStress(c)
 	}
 	return runC13Seq(c)
+}
+
+// runC13Crash: "no location that is still current is ever recorded" across restarts: a history with
+// GC cycles on unflushed state is imaged at every hook point and after every call; on each image fsck
+// resolves what a restarted store would treat as current (log replay) and no such location may be on
+// the freelist, in the hand-over file, or carry the deleted bit.
+func runC13Crash(c run.Ctx) *core.CaseResult {
+	sc := c04Case(run.Ctx{Prop: "C13crash", Seed: c.Seed, Index: c.Index, Tier: c.Tier}, "C13crash")
+	res := &core.CaseResult{ID: c.ID(), Verdict: "held"}
+	env, err := core.NewEnv(sc.cfg)
+	if err != nil {
+		res.Verdict = "inconclusive"
+		return res
+	}
+	defer env.Cleanup()
+	rt := hookrt.New()
+	rt.Install()
+	defer hookrt.Uninstall()
+	rc := crash.NewRecorder(env.Root, rt)
+	sub := &core.CaseResult{}
+	rn := seq.NewRunner(env, sc.u, rt, sub, seq.Opts{})
+	if !rn.Open() {
+		return res
+	}
+	rc.Enabled = true
+	for i, o := range sc.ops {
+		if o.Kind == "reopen" || o.Kind == "iter" {
+			continue
+		}
+		rc.Call = i
+		rn.Exec(i, o)
+		rc.Capture("after-call")
+	}
+	rc.Enabled = false
+	rn.Finish()
+	step := 1
+	if len(rc.Points) > 150 {
+		step = len(rc.Points) / 150
+	}
+	examined := 0
+	for j := 0; j < len(rc.Points); j += step {
+		p := rc.Points[j]
+		sub2 := &core.CaseResult{}
+		fsckImage(sub2, p.Img, sc.cfg, "c13_crash_image", p.Hook, nil)
+		examined++
+		for _, v := range sub2.Violations {
+			if strings.HasPrefix(v.Sig, "fsck-live-on-freelist") || strings.HasPrefix(v.Sig, "fsck-entry-target-deleted") {
+				res.Violate("current-location-freed", "c13-crash-"+strings.SplitN(v.Sig, "@", 2)[0], p.Call, map[string]any{"hook": p.Hook, "files": p.Img.Listing()}, "a crash at %s (call %d) would leave a store whose index still treats a location as current although it is %s", p.Hook, p.Call, v.Msg)
+			}
+		}
+		if len(res.Violations) >= 4 {
+			break
+		}
+	}
+	res.Add("c13_crash_images_examined", int64(examined))
+	res.Add("c13_crash_cases", 1)
+	res.Hash = caseHash(sc.cfg, sc.u, sc.ops)
+	res.NonTrivial = examined >= 10
+	if (c.Index-c13SeqCount(c.Tier)) < 4 || res.Verdict == "violated" {
+		res.Sample = map[string]any{"case": c.ID(), "kind": "crash-slice", "config": sc.cfg, "images": len(rc.Points), "examined": examined, "ops": opsStrings(sc.ops, 30)}
+	}
+	return res
 }
 
 // runC13FreelistStress: exactly-once delivery through the freelist's buffering, flushing and
